@@ -318,6 +318,8 @@ def find_item(src, path_parts, first_ok=False):
         items = parse_items(src, lo, hi)
         part = parts[0]
         want_kind, _, rest = part.partition(" ")
+        if re.match(r"impl\b", part):
+            want_kind = "impl"
         found = []
         for it in items:
             if it.kind != want_kind:
